@@ -5,6 +5,7 @@ package props
 import (
 	"context"
 	"fmt"
+	"reflect"
 	"sort"
 	"sync"
 	"sync/atomic"
@@ -33,7 +34,9 @@ type C07Call struct {
 	B  int `json:"b"`  // binding 0..5
 	// Ctx: how the call's own context is built: 0 the harness's instrumented fetcher, 1 the library's
 	// NewCtxFromVars over the binding's values, 2 NewCtxFromVars(conf, nil) filled with Ctx.Set
-	// afterwards (the start-empty-and-Set pattern of TryEval users); a failing fetch is an absent value.
+	// afterwards (the start-empty-and-Set pattern of TryEval users), 3 NewCtxFromVars over a bindings
+	// map that the caller built once per binding and hands to every call with that binding, from
+	// every goroutine (its integers and integer lists are Go int / []int); a failing fetch is an absent value.
 	Ctx int `json:"ctx,omitempty"`
 }
 
@@ -54,7 +57,7 @@ func genC07Calls(t *rapid.T, nprogs, lo, hi int) []C07Call {
 			P:   rapid.IntRange(0, nprogs-1).Draw(t, "prog"),
 			Op:  pickW(t, "op", 6, 4, 1, 1, 2),
 			B:   rapid.IntRange(0, c07Bindings-1).Draw(t, "bind"),
-			Ctx: pickW(t, "ctx", 4, 1, 2),
+			Ctx: pickW(t, "ctx", 4, 1, 2, 2),
 		}
 	}
 	return out
@@ -217,13 +220,38 @@ func (a c07Result) same(b c07Result) bool {
 }
 
 // c07LibCtx builds the call's context with the library's own fetchers.
-func c07LibCtx(cc *eval.Config, mode int, vars map[string]interface{}, fail map[string]error, avail map[string]bool) *eval.Ctx {
+// c07Vals: the values a library context is built from; raw: integers and integer lists as Go int / []int.
+func c07Vals(vars map[string]interface{}, fail map[string]error, avail map[string]bool, raw bool) map[string]interface{} {
 	vals := map[string]interface{}{}
 	for n, v := range vars {
-		if _, failing := fail[n]; !failing && (avail == nil || avail[n]) {
-			vals[n] = v
+		if _, failing := fail[n]; failing || (avail != nil && !avail[n]) {
+			continue
 		}
+		if raw {
+			switch x := v.(type) {
+			case int64:
+				v = int(x)
+			case []int64:
+				l := make([]int, len(x))
+				for i, e := range x {
+					l[i] = int(e)
+				}
+				v = l
+			}
+		}
+		vals[n] = v
 	}
+	return vals
+}
+
+func c07LibCtx(cc *eval.Config, mode int, vars map[string]interface{}, fail map[string]error, avail map[string]bool, shared map[string]interface{}) *eval.Ctx {
+	if mode == 3 {
+		if shared == nil {
+			shared = c07Vals(vars, fail, avail, true)
+		}
+		return eval.NewCtxFromVars(cc, shared)
+	}
+	vals := c07Vals(vars, fail, avail, false)
 	if mode == 1 {
 		return eval.NewCtxFromVars(cc, vals)
 	}
@@ -243,16 +271,29 @@ func c07LibCtx(cc *eval.Config, mode int, vars map[string]interface{}, fail map[
 	return ctx
 }
 
-func c07Do(e *eval.Expr, cc *eval.Config, u *Universe, call C07Call) c07Result {
+// c07SharedKey: one kept bindings map per binding and availability view.
+func c07SharedKey(call C07Call) int {
+	k := call.B * 2
+	if call.Op == 1 {
+		k++
+	}
+	return k
+}
+
+func c07Do(e *eval.Expr, cc *eval.Config, u *Universe, call C07Call, sharedMaps ...map[int]map[string]interface{}) c07Result {
 	vars, fail, avail := c07Binding(u, call.B)
+	var shared map[string]interface{}
+	if len(sharedMaps) > 0 && sharedMaps[0] != nil {
+		shared = sharedMaps[0][c07SharedKey(call)]
+	}
 	f := &Fetcher{Vars: vars, Fail: fail, Log: &Log{}}
 	if call.Ctx != 0 && (call.Op == 0 || call.Op == 1 || call.Op == 4) {
 		var ctx *eval.Ctx
 		if o := Safe(func() (eval.Value, error) {
 			if call.Op == 1 {
-				ctx = c07LibCtx(cc, call.Ctx, vars, fail, avail)
+				ctx = c07LibCtx(cc, call.Ctx, vars, fail, avail, shared)
 			} else {
-				ctx = c07LibCtx(cc, call.Ctx, vars, fail, nil)
+				ctx = c07LibCtx(cc, call.Ctx, vars, fail, nil, shared)
 			}
 			return nil, nil
 		}); o.Panic != nil {
@@ -337,13 +378,14 @@ func startConsumer(e *eval.Expr, kind int) (stop func()) {
 }
 
 func callName(c C07Call) string {
-	return fmt.Sprintf("%s(program %d, binding %d, context %s)", []string{"Eval", "TryEval", "Dump", "DumpTable", "EvalBool"}[c.Op], c.P, c.B, []string{"instrumented fetcher", "NewCtxFromVars(values)", "NewCtxFromVars(nil)+Set"}[c.Ctx])
+	return fmt.Sprintf("%s(program %d, binding %d, context %s)", []string{"Eval", "TryEval", "Dump", "DumpTable", "EvalBool"}[c.Op], c.P, c.B, []string{"instrumented fetcher", "NewCtxFromVars(values)", "NewCtxFromVars(nil)+Set", "NewCtxFromVars(kept raw bindings map)"}[c.Ctx])
 }
 
 func checkC07(c C07Case, r *Rec) *Violation {
 	type prog struct {
 		e    *eval.Expr
 		cc   *eval.Config
+		kept map[int]map[string]interface{} // the caller's bindings maps (context mode 3), built once
 		u    *Universe
 		want map[C07Call]c07Result
 		snap progSnapshot
@@ -420,6 +462,12 @@ func checkC07(c C07Case, r *Rec) *Violation {
 			return v
 		}
 		pr.e, pr.cc = e, cc
+		pr.kept = map[int]map[string]interface{}{}
+		for b := 0; b < c07Bindings; b++ {
+			vars, fail, avail := c07Binding(&p.U, b)
+			pr.kept[b*2] = c07Vals(vars, fail, nil, true)
+			pr.kept[b*2+1] = c07Vals(vars, fail, avail, true)
+		}
 		pr.snap = snapshotProgram(e)
 		if p.Events > 0 {
 			pr.stop = startConsumer(e, c.Consumer)
@@ -453,7 +501,7 @@ func checkC07(c C07Case, r *Rec) *Violation {
 	failures := 0
 	for k, call := range c.Seq {
 		p := progs[call.P]
-		got := c07Do(p.e, p.cc, p.u, call)
+		got := c07Do(p.e, p.cc, p.u, call, p.kept)
 		if got.o.Err != nil {
 			failures++
 		}
@@ -481,7 +529,7 @@ func checkC07(c C07Case, r *Rec) *Violation {
 			<-start
 			for k, call := range calls {
 				p := progs[call.P]
-				got := c07Do(p.e, p.cc, p.u, call)
+				got := c07Do(p.e, p.cc, p.u, call, p.kept)
 				if k == 0 {
 					atomic.AddInt32(&firstCalls, 1)
 				}
@@ -504,6 +552,17 @@ func checkC07(c C07Case, r *Rec) *Violation {
 	}
 	if v := checkImmutable("by the concurrent calls"); v != nil {
 		return v
+	}
+	// the caller's kept bindings maps are what they were
+	for i, p := range progs {
+		for b := 0; b < c07Bindings; b++ {
+			vars, fail, avail := c07Binding(p.u, b)
+			for k, want := range map[int]map[string]interface{}{b * 2: c07Vals(vars, fail, nil, true), b*2 + 1: c07Vals(vars, fail, avail, true)} {
+				if !reflect.DeepEqual(p.kept[k], want) {
+					return Violf("C07: a bindings map the caller kept and built contexts from (program %d, binding %d) was modified: now %v, was %v\n%s", i, b, p.kept[k], want, describe())
+				}
+			}
+		}
 	}
 	overlapped := atFirstDone >= 2
 	if overlapped {
@@ -542,7 +601,7 @@ func checkC07(c C07Case, r *Rec) *Violation {
 
 var propC07 = Prop[C07Case]{
 	ID:       "C07",
-	Rule:     "histories over 1..3 shared compiled programs (typed random tree x optimization subset x {no events, ReportEvent, Debug}), 6 bindings each (three of them with an additional failing fetch, so successes and failures mix): a sequential part of 10..60 calls (Eval, TryEval, Dump, DumpTable, EvalBool) and a concurrent part of 2..8 (16 thorough) goroutines x 10..50 (200) calls started behind one barrier, each call with its own context (the harness's instrumented fetcher, the library's NewCtxFromVars over the values, or an empty NewCtxFromVars context filled with Ctx.Set); event consumer prompt / buffered / slow. Oracles: every call returns what the same call returns on a freshly compiled unshared program (itself cross-checked against R when unoptimized); the flat program read through the read-only hook (flags, child counts, jump indexes, stack slots, keys, values, operator identities, parent table, stack bound) is identical before and after; the test binary runs under the Go race detector (halt on first report; the case is written to disk before it runs). Non-trivial = at least two goroutines had completed a call when the first goroutine finished (measured) and the sequential history mixes failing and succeeding calls; distinct by the whole history",
+	Rule:     "histories over 1..3 shared compiled programs (typed random tree x optimization subset x {no events, ReportEvent, Debug}), 6 bindings each (three of them with an additional failing fetch, so successes and failures mix): a sequential part of 10..60 calls (Eval, TryEval, Dump, DumpTable, EvalBool) and a concurrent part of 2..8 (16 thorough) goroutines x 10..50 (200) calls started behind one barrier, each call with its own context (the harness's instrumented fetcher, the library's NewCtxFromVars over the values, an empty NewCtxFromVars context filled with Ctx.Set, or NewCtxFromVars over one raw-typed bindings map per binding that the caller keeps and shares between all goroutines); event consumer prompt / buffered / slow. Oracles: every call returns what the same call returns on a freshly compiled unshared program (itself cross-checked against R when unoptimized); the flat program read through the read-only hook (flags, child counts, jump indexes, stack slots, keys, values, operator identities, parent table, stack bound) is identical before and after; the test binary runs under the Go race detector (halt on first report; the case is written to disk before it runs). Non-trivial = at least two goroutines had completed a call when the first goroutine finished (measured) and the sequential history mixes failing and succeeding calls; distinct by the whole history",
 	Gen:      genC07,
 	Check:    checkC07,
 	PreWrite: true,
